@@ -129,6 +129,12 @@ def POST_INSTALL():
     V.SymReal.__pow__ = sym_pow
     V.SymReal.__rpow__ = sym_rpow
 
+    # the random-pinning fallback after an 'unknown' costs up to 24 x 4 s per obligation; on a broken repository many
+    # obligations go unknown at once - 6 tries keep such runs inside the budget (it only ever turns unknown into a candidate)
+    from symx.explore import Explorer
+    orig_sample = Explorer._sample_sat
+    Explorer._sample_sat = lambda self, extra, tries=6, seed=0: orig_sample(self, extra, tries=tries, seed=seed)
+
 
 class _Native:
     """build concrete geometry with the facades passing through"""
@@ -365,7 +371,13 @@ def check_all(ctx, A, E, known=None):
             if t.get_id() not in seen and not z3.is_const(t):
                 seen.add(t.get_id())
                 subs.append((t, z3.Real("wabs!%d" % len(subs))))
+    long_ms = ctx.timeout_ms
     for k in E:
+        # identities, symmetry and dominance are decided in well under a second on an idle core; only the direct definiteness
+        # queries get the long per-query timeout
+        ms = long_ms if ("_direct." in k) else min(long_ms, 30000)
+        ctx.timeout_ms = ms
+        ctx.solver.set("timeout", ms)
         if subs and k in A and not (known and k in known):
             obs = [o for o in hx.eq_terms(A[k], E[k])]
             zs = [o.t if isinstance(o, V.SymBool) else o for o in obs]
@@ -386,6 +398,8 @@ def check_all(ctx, A, E, known=None):
                                                   "smt_size": len(conj.sexpr()), "abstracted_weight_terms": len(subs)})
                     continue
         hx.check_all(ctx, A, E, known=known, only=[k])
+    ctx.timeout_ms = long_ms
+    ctx.solver.set("timeout", long_ms)
 
 
 def run(ctx, body, inputs, kwargs, validate=True, known=None):
